@@ -434,9 +434,10 @@ let () =
        | "CPS" :: conn :: rest ->
            let (pl, _) = parse_pts rest in
            cps := (int_of_string conn, List.map (fun (p : pt) -> (p.px, p.py)) pl) :: !cps
-       | "ALLSEG" :: dim :: u :: _n :: nc :: fspp :: _ ->
+       | "ALLSEG" :: dim :: u :: _n :: nc :: fspp :: more ->
            flush_region (); flush_pass true;
-           curp := Some { p_dim = int_of_string dim; p_unify = b_of u; p_nc = b_of nc; p_fspp = q_of_string fspp; p_nfs = ref None;
+           curp := Some { p_dim = int_of_string dim; p_unify = b_of u; p_nc = b_of nc; p_fspp = q_of_string fspp;
+                          p_nfs = ref (match more with o :: _ -> Some (b_of o) | [] -> None);
                           p_routes = []; p_segs = []; p_regions = []; p_complete = true }
        | "AROUTE" :: conn :: rest ->
            (match !curp with Some p ->
